@@ -170,6 +170,21 @@ add("c13_convert", "c13_from_superset_down_dualdvec_n2_present", "C13",
 add("c13_convert", "c13_from_superset_down_dualdvec_absent", "C13",
     "DualDVec f64->f32, eps absent: from_superset(y).is_some() == is_in_subset(y); absent stays absent",
     DYN, "thorough", flags=NOOVF)
+D0 = "dimension 0 (static Const<0> resp. Dyn length 0); real part all bit patterns (NaN -> NaN); kani::unwind(9) static / (3) Dyn, unwinding assertions on"
+for ty in ["dualsvec", "dual2svec"]:
+    add("c13_convert", f"c13_dim0_{ty}_present", "C13",
+        f"{ty}<0>, derivative PRESENT but empty: is_in_subset(y) == from_superset(y).is_some() == true; from_superset/to_superset/round trip keep presence (f64->f64, f32->f32, f32<->f64)",
+        D0, "quick")
+    add("c13_convert", f"c13_dim0_{ty}_absent", "C13",
+        f"{ty}<0>, derivative symbolically absent OR present-but-empty: is_in_subset(y) == from_superset(y).is_some() == true; presence kept",
+        D0, "quick")
+    add("c13_convert", f"c13_dim0_down_{ty}_present", "C13",
+        f"{ty}<0>, derivative PRESENT but empty, f64 flavour as subset of the f32 flavour: is_in_subset == is_some == true; presence kept",
+        D0, "quick", flags=NOOVF)
+for pr in ["present", "absent"]:
+    add("c13_convert", f"c13_dim0_dualdvec_{pr}", "C13",
+        f"DualDVec with run-time length 0, eps {pr}: is_in_subset(y) == from_superset(y).is_some() == true; presence and length kept; f32->f64->f32 round trip",
+        "BOUNDED: " + D0, "quick")
 add("c13_convert", "c13_floats_absent_dualsvec_2", "C13",
     "DualSVec: from_subset(float) has *absent* eps", "none", "quick")
 add("c13_convert", "c13_floats_absent_dual2svec_2", "C13",
